@@ -1908,9 +1908,9 @@ class TextGen:
         k = None
         if 'd' not in txt.lower():
             y = r.random()
-            if y < 0.3 and (f['float_kind'] or last):
+            if y < 0.3 and f['float_kind']:
                 k = r.choice(['jprb', 'jprb', 'jprm'])
-                self.features.add('float-kind-last' if last and not f['float_kind'] else 'float-kind')
+                self.features.add('float-kind')
             elif y < 0.36 and f['float_kind'] and f['numeric_kind']:
                 k = '8'; self.features.add('numeric-kind')
         if k and 'e' not in txt.lower() and '.' not in txt:
@@ -2049,8 +2049,12 @@ class TextGen:
         if n > 1:
             self.features.add('mulchain%d' % min(n, 4))
         if ty == 'r' and static_type_safe(ast, self.env) == 'i4':
-            t2, a2, _c = self.primary('r', 0)
-            text, ast = f'{text}{self.sp("*", True)}{t2}', ('prod', (ast, self._leaf_ast(t2, a2)))
+            t2, a2, c2 = self.primary('r', 0)
+            if c2 and not f['bare_component']:
+                t2, c2 = f'({t2})', False
+            if n > 1 or not f['bare_component']:
+                text, ast = f'({text})', ('par', ast)        # keeps components / powers away from the new operator
+            text, ast = f'{text}{self.sp("*", True)}{t2}', ('prod', (ast, self._leaf_ast(t2.strip('()'), a2)))
         return text, ast, first
 
     def arith(self, ty, depth, last=False, strict=False):
@@ -2162,6 +2166,15 @@ class TextGen:
                 t, a = self.comparison(d, last=True)
         else:
             t, a = self.arith(ty, d, last=True)
+            if ty == 'r' and not self.f['float_kind'] and self.rng.random() < 0.25:
+                # a real literal with a kind as the very last token (the only place parse_expr's lexer accepts one)
+                lit = self.rng.choice(['1.5', '2.25', '0.5e0', '12.5', '1.0E-1'])
+                k = self.rng.choice(['jprb', 'jprm'])
+                op = self.rng.choice('+-')
+                t = f'{t}{self.sp(op)}{lit}_{self.case(k)}'
+                la = ('real', lit, k)
+                a = ('sum', (a, la if op == '+' else ('neg', la)))
+                self.features.add('float-kind-last')
         return t, a, sorted(self.features)
 
 
